@@ -263,3 +263,31 @@ def sample_programs(progs, k=3):
                     x[k] = "hex:" + bytes(x[k]).hex()
         out.append({"id": p["id"], "note": p.get("note", ""), "steps": st[:12] + ([{"op": "... %d more" % (len(st) - 12)}] if len(st) > 12 else [])})
     return out
+
+
+def asm_model(work, cfg="MC_Asm.cfg", timeout=3000):
+    """extract the .s routines of the working tree and execute them with the Asm machine (TLC, real parameters).
+    Returns a result dict; 'failed' carries the counterexample operands when an invariant is violated."""
+    import asmx
+    info = asmx.extract(repo(), work.spec)
+    t0 = time.time()
+    rc, out, gen, dist = tlc(work, "MC_Asm", cfg, workers=NCPU, timeout=timeout, heap="12g")
+    res = {"module": "MC_Asm", "cfg": cfg, "states": dist, "transitions": gen, "wall_s": round(time.time() - t0, 1), "extracted": info}
+    if "No error has been found" in out:
+        return res
+    m = re.search(r"Invariant (\w+) is violated", out)
+    if not m:
+        raise Infra("MC_Asm failed without an invariant violation:\n" + out[-3000:])
+    res["failed"] = m.group(1)
+    def vec(name):
+        mm = re.findall(r"/\\ %s = (<<.*?>>)\n" % name, out)
+        if not mm:
+            return None
+        limbs = re.findall(r"<<([\d, ]*)>>", mm[-1][2:-2])
+        vals = []
+        for l in limbs:
+            bs = [int(x) for x in l.split(",") if x.strip()]
+            vals.append(sum(b << (8 * i) for i, b in enumerate(bs)))
+        return vals
+    res["a"], res["b"] = vec("a"), vec("b")
+    return res
